@@ -1,5 +1,6 @@
 import Yuiv.Model.C05
 import Yuiv.Model.C05Tng
+import Yuiv.Model.C05Engine
 import Yuiv.Drv.KhLink
 /-
 Driver for C05.
@@ -25,6 +26,19 @@ constructors `TngComp::arc/circ`, `Tng::new`, `CobComp::new`, `Cob::new` are app
 Rust equality of `TngComp` (arcs up to reversal, circles up to rotation/reflection), component order as stored.
 `tp P Q` path pair · `tn T` / `ta T P` / `tc T T` / `tv T mode k` / `tr T i` tangles · `ck kind …` constructors ·
 `cc C` / `cn C C` / `co C S|T i N|X|Y` components · `kq K` / `kc K K` / `ks K K` / `kp K S|T P N|X|Y` / `ki T` cobordisms.
+
+Engine requests (model `Yuiv/Model/C05Engine.lean`; STATEFUL: the driver keeps numbered slots holding a `TngComplex`
+over ℤ; `handleSt` threads the session through the lines of one run, `eg new` empties it):
+`eg new` · `eg init S h t dh dq bp|-` · `eg app S X|Xm|V|H e0 e1 e2 e3` · `eg con S S'` (S' is consumed) ·
+`eg dl S KEY r` · `eg el S KEY KEY` · `eg q S` · `eg fin S red ref | LINK`.
+KEY = `<state bits>.<label X/I>`.  Reply of a state-changing request: `panic` / `err`, or
+`[upd=KEY,KEY ]nv=<#vertices> ne=<#edges> wf=<0|1> h=<FNV-1a-64 of the canonical state text>[ <state text>]`
+(the text itself only when it has at most 1200 characters).  State text:
+`sh=dh,dq bp=e|- n=dim V=KEY:TNG;… E=KEY>KEY:LC[!];…` with vertices / edges / terms sorted as strings,
+LC = `coef*COB|…`, `!` = `is_invertible()`.  A request that panics leaves the slot unchanged.
+`eg fin`: `panic` unless completely delooped, else `gens=n0,n1,… mat=<table> ref=<table>[ bmat=<table> bref=<table>]`:
+homology of the model's own chain complex (Smith invariants) and of the cube of resolutions of LINK
+(`KhRef.khHomology`); bigraded tables when h = t = 0.
 -/
 namespace Yuiv.Drv.C05
 open Yuiv Yuiv.C05 Yuiv.Drv Yuiv.Drv.KhLink
@@ -373,6 +387,188 @@ def kiReply (t : String) : Option String := do
 end Tngd
 open Tngd
 
+/-! ### engine requests (`Model/C05Engine`), stateful -/
+
+namespace Eng
+open Yuiv.C05.Tng Yuiv.C05.Engine Yuiv.C05.Deloop Tngd
+
+abbrev C := Cx (LcCob Int)
+
+structure Slot where
+  h : Int
+  t : Int
+  cx : C
+
+abbrev Sess := List (Nat × Slot)
+
+def Sess.get? (s : Sess) (i : Nat) : Option Slot := s.lookup i
+def Sess.set (s : Sess) (i : Nat) (x : Slot) : Sess := (i, x) :: s.filter (fun p => p.1 != i)
+def Sess.del (s : Sess) (i : Nat) : Sess := s.filter (fun p => p.1 != i)
+
+def keyStr (k : TKey) : String :=
+  String.ofList (k.state.map (fun b => if b then '1' else '0')) ++ "." ++
+  String.ofList (k.label.map (fun g => match g with | .X => 'X' | .I => 'I'))
+
+def parseKey? (s : String) : Option TKey :=
+  match s.splitOn "." with
+  | [a, b] => do
+    let st ← a.toList.mapM (fun c => if c == '0' then some false else if c == '1' then some true else none)
+    let lb ← b.toList.mapM (fun c => if c == 'X' then some AlgGen.X else if c == 'I' then some AlgGen.I else none)
+    some ⟨st, lb⟩
+  | _ => none
+
+def sortStrs (l : List String) : List String := (l.toArray.qsort (· < ·)).toList
+
+def lcText (f : LcCob Int) : String :=
+  if f.isEmpty then "0" else String.intercalate "|" (sortStrs (f.map (fun p => s!"{p.2}*{cobStr p.1}")))
+
+def optNatStr : Option Nat → String
+  | some e => toString e
+  | none => "-"
+
+def stateText (cx : C) : String :=
+  let vs := sortStrs (cx.verts.map (fun v => s!"{keyStr v.1}:{tngStr v.2}"))
+  let es := sortStrs (cx.edges.map (fun e =>
+    s!"{keyStr e.1.1}>{keyStr e.1.2}:{lcText e.2}{if lcIsInvertible e.2 then "!" else ""}"))
+  s!"sh={cx.dh},{cx.dq} bp={optNatStr cx.base} n={cx.dim} V={String.intercalate ";" vs} E={String.intercalate ";" es}"
+
+def fnv64 (s : String) : UInt64 :=
+  s.toUTF8.foldl (fun h b => (h ^^^ b.toUInt64) * 0x100000001b3) 0xcbf29ce484222325
+
+def textLimit : Nat := 1200
+
+def dump (cx : C) : String :=
+  let txt := stateText cx
+  let head := s!"nv={cx.verts.length} ne={cx.edges.length} wf={b01 cx.wfCheck} h={(fnv64 txt).toNat}"
+  if txt.length ≤ textLimit then head ++ " " ++ txt else head
+
+def ops (s : Slot) : EdgeOps (LcCob Int) := lcOps s.h s.t
+
+/-- homology tables of the model's chain complex -/
+def chainTables (cd : ChainData) (bigraded : Bool) : String × String := Id.run do
+  -- ids
+  let mut idx : Std.HashMap String Nat := {}
+  let mut qOf : Array Int := #[]
+  let mut gens : Array (Array KhRef.Gen) := #[]
+  for gs in cd.gens do
+    let mut row : Array KhRef.Gen := #[]
+    for (k, q) in gs do
+      let id := qOf.size
+      idx := idx.insert (keyStr k) id
+      qOf := qOf.push q
+      row := row.push ⟨id, 0⟩
+    gens := gens.push row
+  let mut dmap : Std.HashMap Nat (Array KhRef.Term) := {}
+  let mut bad := false
+  for ds in cd.d do
+    for (k, l, v) in ds do
+      match idx.get? (keyStr k), idx.get? (keyStr l) with
+      | some a, some b => dmap := dmap.insert a (((dmap.get? a).getD #[]).push (⟨b, 0⟩, v))
+      | _, _ => bad := true
+  if bad then return ("err-gen", "err-gen")
+  let d : KhRef.Gen → Array KhRef.Term := fun g => (dmap.get? g.s).getD #[]
+  let mut cells : Array (Int × Option Int × KhRef.Group) := #[]
+  let hs := KhRef.homologyOf .Z gens d
+  for i in [0:hs.size] do
+    let g := hs[i]!
+    if g.rank != 0 || g.tors.size != 0 then cells := cells.push (cd.imin + i, none, g)
+  let plain := cellsStr ⟨cells⟩
+  if !bigraded then return (plain, "-")
+  let mut qs : Array Int := #[]
+  for q in qOf do
+    if !qs.contains q then qs := qs.push q
+  let mut bcells : Array (Int × Option Int × KhRef.Group) := #[]
+  for q in qs.qsort (· < ·) do
+    let gq := gens.map (fun gs => gs.filter (fun g => qOf[g.s]! == q))
+    for gs in gq do
+      for g in gs do
+        if (d g).any (fun (y, _) => qOf[y.s]! != q) then return (plain, "err-q")
+    let hq := KhRef.homologyOf .Z gq d
+    for i in [0:hq.size] do
+      let g := hq[i]!
+      if g.rank != 0 || g.tors.size != 0 then bcells := bcells.push (cd.imin + i, some q, g)
+  return (plain, cellsStr ⟨bcells⟩)
+
+def refTables (l : KhRef.Link) (h t : Int) (red bigraded : Bool) : String × String :=
+  match KhRef.crossingSigns l with
+  | none => ("err-signs", "err-signs")
+  | some sg =>
+    let one := fun (bg : Bool) =>
+      match KhRef.khHomology l sg ⟨h, t, red⟩ .Z bg with
+      | .ok res => cellsStr res
+      | .error .malformed => "err-malformed"
+      | .error .notComplex => "err-notcomplex"
+    (one false, if bigraded then one true else "-")
+
+def resDump (sess : Sess) (i : Nat) (s : Slot) (pre : String) : Res C → Sess × String
+  | .ok cx => (sess.set i { s with cx := cx }, pre ++ dump cx)
+  | .panic => (sess, "panic")
+  | .err => (sess, "err")
+
+def handle (sess : Sess) (ts : List String) : Option (Sess × String) := do
+  match ts with
+  | ["new"] => some ([], "ok")
+  | ["init", i, h, t, dh, dq, bp] =>
+    let i ← parseNat? i; let h ← parseInt? h; let t ← parseInt? t
+    let dh ← parseInt? dh; let dq ← parseInt? dq
+    let bp ← if bp == "-" then some none else (parseNat? bp).map some
+    let cx : C := Cx.init dh dq bp
+    some (sess.set i ⟨h, t, cx⟩, dump cx)
+  | ["q", i] =>
+    let i ← parseNat? i
+    match sess.get? i with
+    | some s => some (sess, dump s.cx)
+    | none => some (sess, "no-slot")
+  | ["app", i, ct, a, b, c, d] =>
+    let i ← parseNat? i; let ct ← parseCT? ct
+    let a ← parseNat? a; let b ← parseNat? b; let c ← parseNat? c; let d ← parseNat? d
+    match sess.get? i with
+    | some s => some (resDump sess i s "" (s.cx.appendX (ops s) mkSdlLc ct #[a, b, c, d]))
+    | none => some (sess, "no-slot")
+  | ["con", i, j] =>
+    let i ← parseNat? i; let j ← parseNat? j
+    match sess.get? i, sess.get? j with
+    | some s, some s2 =>
+      if i == j then none
+      let (sess', r) := resDump sess i s "" (s.cx.connect (ops s) s2.cx)
+      some (sess'.del j, r)
+    | _, _ => some (sess, "no-slot")
+  | ["dl", i, k, r] =>
+    let i ← parseNat? i; let k ← parseKey? k; let r ← parseNat? r
+    match sess.get? i with
+    | some s =>
+      match s.cx.deloop (ops s) k r with
+      | .ok (upd, cx) => some (sess.set i { s with cx := cx }, s!"upd={String.intercalate "," (upd.map keyStr)} " ++ dump cx)
+      | .panic => some (sess, "panic")
+      | .err => some (sess, "err")
+    | none => some (sess, "no-slot")
+  | ["el", i, k0, k1] =>
+    let i ← parseNat? i; let k0 ← parseKey? k0; let k1 ← parseKey? k1
+    match sess.get? i with
+    | some s => some (resDump sess i s "" (s.cx.eliminate (ops s) k0 k1))
+    | none => some (sess, "no-slot")
+  | "fin" :: i :: red :: wref :: "|" :: linkToks =>
+    let i ← parseNat? i; let red ← parseNat? red; let wref ← parseNat? wref
+    if red > 1 || wref > 1 then none
+    let (l, restL) ← parseLink? linkToks
+    if !restL.isEmpty then none
+    match sess.get? i with
+    | some s =>
+      match s.cx.toChain (lcEval s.h s.t) with
+      | .ok cd =>
+        let bg := s.h == 0 && s.t == 0
+        let (m, bm) := chainTables cd bg
+        let (r, br) := if wref == 1 then refTables l s.h s.t (red == 1) bg else ("-", "-")
+        let gens := String.intercalate "," (cd.gens.map (fun g => toString g.length))
+        let base := s!"gens={gens} mat={m} ref={r}"
+        some (sess.del i, if bg then base ++ s!" bmat={bm} bref={br}" else base)
+      | .panic => some (sess.del i, "panic")
+      | .err => some (sess.del i, "err")
+    | none => some (sess, "no-slot")
+  | _ => none
+
+end Eng
+
 def handle (ts : List String) : String :=
   let r : Option String := do
     match ts with
@@ -428,5 +624,11 @@ def handle (ts : List String) : String :=
     | ["ki", t] => kiReply t
     | _ => none
   r.getD "bad-request"
+
+/-- stateful entry point: `eg …` requests thread the session, everything else is stateless -/
+def handleSt (sess : Eng.Sess) (ts : List String) : Eng.Sess × String :=
+  match ts with
+  | "eg" :: rest => (Eng.handle sess rest).getD (sess, "bad-request")
+  | _ => (sess, handle ts)
 
 end Yuiv.Drv.C05
